@@ -1327,6 +1327,15 @@ def run_conv(world, drv, res, rng, tier, hist):
         res.traces += 1
         if 'err' in m or 'err' in real:
             me = {'unhashable': 'TypeError', 'tooLarge': 'CollectionTooLargeException'}.get(m.get('err'), m.get('err'))
+            if me != real.get('err') and {me, real.get('err')} == {'TypeError', 'CollectionTooLargeException'} \
+                    and case.get('lim') is not None:
+                # two faults in one value (an unhashable element AND an oversized collection): which one is met first
+                # depends on the iteration order of a set - accept either when the value has both (the model without the
+                # limit then reports the other fault)
+                m2 = drv.ask({'p': 'C09', 'cases': [dict(case, lim=None)]})['res'][0]
+                if m2.get('err') == 'unhashable':
+                    hist['conv-two-faults'] = hist.get('conv-two-faults', 0) + 1
+                    continue
             if me != real.get('err'):
                 res.fail('mismatch', 'conv-model', 'conv: model says %s, real code %s for %s' % (
                     m.get('err') or 'ok', real.get('err') or 'ok', short(case)), dict(part='conv', case=case))
